@@ -46,7 +46,9 @@ P["C01"] = dict(
 P["C05"] = dict(
     claimed=True,
     technique="static analysis: exact rational identities between the Krueger, rectifying and conformal series tables",
-    decides=["R-LAT2-SENTINEL: lcc decides on lat_2 alone only by is_nan (every latitude, 0 included, is a legitimate second parallel)",
+    decides=["R-MERC-K0-GUARDED: merc replaces k_0 only under a test of lat_ts whose other side still builds the operator",
+             "R-OMERC-LABORDE: every per-tuple decision on `variant` also looks at whether gamma_c is missing",
+             "R-LAT2-SENTINEL: lcc decides on lat_2 alone only by is_nan (every latitude, 0 included, is a legitimate second parallel)",
              "T-OMERC-UC/hemisphere: wherever uc enters a written coordinate it carries SIGN(latc) (factor signum(latc) or copysign(uc, latc))",
              "T-OMERC-UC: omerc computes the centre's u coordinate with the one-argument arctangent of (D^2-1)^1/2 / cos(alpha), as published (no atan2 with the cosine of the azimuth as second argument)",
              "R-NO-INPUT-CLAMP: no clamp / min / max is applied to an input coordinate element in the per-tuple loops of the plane projections",
@@ -76,7 +78,8 @@ P["C06"] = dict(
     claimed=True,
     technique="static analysis: exact checks of the ellipsoid table (f64 grammar, uniqueness, golden a and 1/f), "
               "series reversion identities, meridian-arc coefficients = binom(1/2,k)^2",
-    decides=["R-AZIMUTH-ATAN2/quotient-atan: no angle of the geodesic solutions is the one-argument arctangent of a quotient",
+    decides=["R-ELLPS-FROM-PARAMS: no operator module builds its ellipsoid from Ellipsoid::default() or a literal name",
+             "R-AZIMUTH-ATAN2/quotient-atan: no angle of the geodesic solutions is the one-argument arctangent of a quotient",
              "R-CURVATURE-RADIANS: the combined radii are computed from radii at one and the same latitude",
              "R-BRANCH-AGREE: numerically motivated alternative branches of the ancillary functions compute the same function",
              "R-AZIMUTH-ATAN2: the azimuths returned by geodesic_fwd / geodesic_inv are two-argument arctangents",
@@ -157,7 +160,8 @@ P["C02"] = dict(
 P["C07"] = dict(
     claimed=True,
     technique="static analysis: loop-carried-state and element-preservation dataflow on the Helmert/Molodensky loops",
-    decides=["R-FIXED-TIME: fixed_time is set without comparing t_obs with t_epoch",
+    decides=["R-PPM-ONCE: s / scale and ds / scale_trend reach the stored S / DS through exactly one factor 1e-6",
+             "R-FIXED-TIME: fixed_time is set without comparing t_obs with t_epoch",
              "R-MOLO-NO-PARTIAL-BYPASS: molodensky by-passes its loop only on tests that look at all of dx, dy, dz, da, df (or on a missing parameter)",
              "T-MOLODENSKY: with da = df = 0 the full and the abridged Molodensky corrections are the exact linearisation of the cartesian shift (six rational-function identities in dx, dy, dz, N, M, h and the sines / cosines)",
              "R-ROT-SMALL-ANGLE: with exact = false the matrix of rotation_matrix satisfies M(-r) = M(r) transposed as a polynomial identity (both conventions)",
@@ -186,7 +190,9 @@ P["C07"] = dict(
 P["C08"] = dict(
     claimed=True,
     technique="static analysis: per-iteration typestate (written x counted) on the grid operators' loops",
-    decides=["R-BAND-ORDER: for m-band Gravsoft grids the positions exchanged are the first two bands of each node (lower position a multiple of m)",
+    decides=["R-GRID-MIN-SIZE: BaseGrid::plain refuses only grids with fewer than two rows / columns",
+             "R-HEADER-ORDER-AGREES: SubGridHeader::into_header writes the fields in the positions BaseGrid::plain reads them from (compared by field name)",
+             "R-BAND-ORDER: for m-band Gravsoft grids the positions exchanged are the first two bands of each node (lower position a multiple of m)",
              "R-GRAVSOFT-ANGULAR: every boundary with |h| <= 360 counts as an angle",
              "R-HEADER-PRECISION: Gravsoft numbers are parsed as f64",
              "R-TWO-PASS also reads the find_map form of the search over the grid list",
@@ -222,7 +228,8 @@ P["C10"] = dict(
     claimed=True,
     technique="static analysis: set-of-states typestate dataflow per loop iteration (written none/value/NaN x "
               "counted 0/1/2+), and element-wise value-graph comparison of written tuples with the tuple read",
-    decides=["R-COUNT-SPATIAL: the NaN test guarding the success count of cart_fwd / cart_inv looks at the three spatial results only (the time element is passed through and does not decide)",
+    decides=["R-NONCONVERGENCE-FIRST: every value the geodesic operator writes is dominated by the converged side of the `[3] > 990` test",
+             "R-COUNT-SPATIAL: the NaN test guarding the success count of cart_fwd / cart_inv looks at the three spatial results only (the time element is passed through and does not decide)",
              "R-STACK-COUNT: stack_fwd / stack_inv never return the depth of the stack as the number of successes",
              "R-NO-INPUT-CLAMP: no clamp / min / max is applied to an input coordinate element in the per-tuple loops of the plane projections",
              "R-GRID-MISS-IS-NAN: no result of grids_at is given a default (unwrap_or ...) in the grid operators",
@@ -506,7 +513,9 @@ P["C14"] = dict(
     claimed=True,
     technique="static analysis: wiring rules between sibling implementations (contexts, adapt/axisswap/unitconvert, "
               "operators vs their parameter declarations) and exact series identities between tables of different origin",
-    decides=["R-CURVATURE-RADIANS: every latitude handed to a radius-of-curvature method in curvature::fwd is converted from degrees",
+    decides=["R-FULL-CIRCLE: `azimuth + 180` is reduced modulo 360",
+             "R-ELLPS-FROM-PARAMS: no operator module builds its ellipsoid from Ellipsoid::default() or a literal name",
+             "R-CURVATURE-RADIANS: every latitude handed to a radius-of-curvature method in curvature::fwd is converted from degrees",
              "R-NOOP-EXACT: adapt's no-op decision compares the multipliers exactly (axisswap and adapt agree on sign-only mappings)",
              "R-OP-NO-REGISTRATION: instantiating does not change what names mean in either context",
              "R-POLAR-HEIGHT: cart's inverse and GeoCart::geographic both take the height on the polar axis as |Z| minus the semiminor axis",
